@@ -100,6 +100,23 @@ theorem midframe_gate (ps : List PInfo) (isC : Bool) (s : Ctx) (k : Nat) (v : In
     setParam ps isC s k v = .error .stage := by
   unfold setParam; rw [hk]; simp [hs, hna]
 
+/-- (f') a whole frame through a one-call entry point (`ZSTD_compressSequences`, `ZSTD_compress2`, …) leaves the context in the init
+stage with every parameter and the dictionaries as they were: whatever was legal before the frame is legal after it -/
+theorem wholeFrame_returns_to_init (s : Ctx) :
+    (wholeFrame s).started = false ∧ (wholeFrame s).vals = s.vals ∧ (wholeFrame s).hasDict = s.hasDict := ⟨rfl, rfl, rfl⟩
+
+theorem set_after_wholeFrame (ps : List PInfo) (isC : Bool) (s : Ctx) (k : Nat) (v : Int) (hs : s.started = false) :
+    setParam ps isC (wholeFrame s) k v = setParam ps isC s k v := by
+  have : wholeFrame s = s := by cases s; simp_all [wholeFrame, endFrame, startFrame]
+  rw [this]
+
+/-- (f'') once input has been accepted for a frame (`startFrame`: also the deferred start of stable-input mode), every init-stage-only
+entry point is refused, and a refusal stores nothing -/
+theorem initStageOnly_gate (s : Ctx) :
+    (s.started = true → initStageOnly s = .error .stage ∧ loadDict s = .error .stage) ∧
+    (s.started = false → initStageOnly s = .ok s) ∧ initStageOnly (startFrame s) = .error .stage := by
+  refine ⟨fun h => ?_, fun h => ?_, rfl⟩ <;> simp [initStageOnly, loadDict, h]
+
 /-- every row of `ZSTD_defaultCParameters[4][23]` (regenerated from clevels.h) passes `ZSTD_checkCParams` -/
 theorem clevels_rows_valid : clevels.all (fun row => row.all checkCParams) = true := by decide
 
